@@ -954,3 +954,291 @@ func ruleAllFilesProcessed(c *Ctx, rule string) {
 	}
 	c.floor(rule, "processFile call sites in ProcessFiles", n, 1)
 }
+
+// ruleUsedMarkingMatchesEmission (C04.13): an import is marked "used" (and therefore printed in the import block) exactly
+// for what is then printed. Every loop `for _, imp := range M { imp.IsUsed = true }` is classified by where M comes from,
+// and the function must then emit the expression that belongs to the same owner:
+//
+//	P.ReferencedImports (P an InjectorParam)      -> createASTTypeExpr(.., P.Type(), ..)      (all of P's printed type)
+//	A.Param.ReferencedImports (A an argument)     -> A.ASTTypeExpr   (premise: both built from one type, checked)
+//	S.Provider.ReferencedImports                  -> S.Provider.ASTExpr (the provider expression is always printed)
+//	local map filled by collectImportsFromType(R.Type) -> R.ASTTypeExpr
+//
+// and no path leads from the marking to the next iteration / the function's exit without that emission (error exits aside).
+func ruleUsedMarkingMatchesEmission(c *Ctx, rule string) {
+	L := c.L
+	n := 0
+	type site struct {
+		fn     *ssa.Function
+		anchor ssa.Instruction
+		m      ssa.Value
+	}
+	var sites []site
+	helpers := map[*ssa.Function]int{} // marking helper -> index of the map parameter
+	for _, fn := range pkgFuncs(L, genPkg) {
+		for _, b := range fn.Blocks {
+			for _, in := range b.Instrs {
+				st, ok := in.(*ssa.Store)
+				if !ok {
+					continue
+				}
+				fa, ok := st.Addr.(*ssa.FieldAddr)
+				if !ok || fieldKey(fa) != "internal/kessoku.Import.IsUsed" {
+					continue
+				}
+				if k, isC := st.Val.(*ssa.Const); !isC || k.Value == nil || k.Value.String() != "true" {
+					continue
+				}
+				ex, ok := fa.X.(*ssa.Extract)
+				if !ok {
+					continue // single import looked up by path: covered by the qualifier rules
+				}
+				nx, ok := ex.Tuple.(*ssa.Next)
+				if !ok {
+					continue
+				}
+				rg, ok := nx.Iter.(*ssa.Range)
+				if !ok {
+					continue
+				}
+				if p, isP := resolve(rg.X).(*ssa.Parameter); isP && p.Parent() == fn {
+					for i, q := range fn.Params {
+						if q == p {
+							helpers[fn] = i
+						}
+					}
+					continue
+				}
+				sites = append(sites, site{fn, nx, rg.X})
+			}
+		}
+	}
+	for _, fn := range pkgFuncs(L, genPkg) {
+		for _, cs := range callsIn(fn) {
+			if cal := cs.common.StaticCallee(); cal != nil {
+				if idx, ok := helpers[cal]; ok && idx < len(cs.common.Args) {
+					sites = append(sites, site{fn, cs.instr, cs.common.Args[idx]})
+				}
+			}
+		}
+	}
+	for _, sx := range sites {
+		fn, anchor, mval := sx.fn, sx.anchor, sx.m
+		{
+			{
+				n++
+				s := newSym(L, map[string]bool{})
+				s.maxD = 0
+				mterm := strings.Join(s.eval(mval), "|")
+				construct := fnName(fn) + ":used-marking"
+				var want []string // sub-terms, one of which must be emitted after the marking
+				what := ""
+				switch {
+				case strings.HasPrefix(mterm, "field:internal/kessoku.InjectorParam.ReferencedImports("):
+					owner := strings.TrimSuffix(strings.TrimPrefix(mterm, "field:internal/kessoku.InjectorParam.ReferencedImports("), ")")
+					want = append(want, ".InjectorParam).Type("+owner+")")
+					if strings.HasPrefix(owner, "field:internal/kessoku.InjectorArgument.Param(") {
+						arg := strings.TrimSuffix(strings.TrimPrefix(owner, "field:internal/kessoku.InjectorArgument.Param("), ")")
+						want = append(want, "field:internal/kessoku.InjectorArgument.ASTTypeExpr("+arg+")")
+					}
+					what = "the parameter " + owner
+				case strings.HasPrefix(mterm, "field:internal/kessoku.ProviderSpec.ReferencedImports("):
+					owner := strings.TrimSuffix(strings.TrimPrefix(mterm, "field:internal/kessoku.ProviderSpec.ReferencedImports("), ")")
+					want = append(want, "field:internal/kessoku.ProviderSpec.ASTExpr("+owner+")")
+					what = "the provider " + owner
+				default:
+					// a local map: filled by collectImportsFromType(T, ...)
+					for _, cs := range callsIn(fn) {
+						if cs.common.StaticCallee() != nil && cs.common.StaticCallee().Name() == "collectImportsFromType" && len(cs.common.Args) >= 4 && resolve(cs.arg(3)) == resolve(mval) {
+							t := strings.Join(s.eval(cs.arg(0)), "|")
+							if strings.HasPrefix(t, "field:internal/kessoku.Return.Type(") {
+								owner := strings.TrimSuffix(strings.TrimPrefix(t, "field:internal/kessoku.Return.Type("), ")")
+								want = append(want, "field:internal/kessoku.Return.ASTTypeExpr("+owner+")")
+								what = "the requested type of " + owner
+							}
+						}
+					}
+				}
+				if len(want) == 0 {
+					c.fail(rule, construct, L.pos(anchor.Pos()), "imports are marked used from a set whose owner the rule cannot tie to an emitted expression", mterm)
+					continue
+				}
+				// emission sites in fn: instructions whose operand terms contain one of the wanted sub-terms
+				var emits []ssa.Instruction
+				for _, b2 := range fn.Blocks {
+					for _, in2 := range b2.Instrs {
+						var vals []ssa.Value
+						switch x := in2.(type) {
+						case *ssa.Store:
+							if fa2, ok := x.Addr.(*ssa.FieldAddr); ok && strings.HasPrefix(fieldKey(fa2), "go/ast.") {
+								vals = append(vals, x.Val)
+							}
+						case *ssa.Call:
+							if cal := x.Common().StaticCallee(); cal != nil && (cal.Name() == "createASTTypeExpr" || strings.HasPrefix(cal.Name(), "build")) {
+								vals = append(vals, x.Common().Args...)
+							}
+						}
+						for _, v := range vals {
+							t := strings.Join(s.eval(v), "|")
+							for _, wsub := range want {
+								if strings.Contains(t, wsub) {
+									emits = append(emits, in2)
+								}
+							}
+						}
+					}
+				}
+				// the provider expression is printed by buildProviderCall for every call statement (C02.2 checks the template)
+				if strings.Contains(what, "the provider field:internal/kessoku.InjectorProviderCallStmt.Provider(") && len(emits) == 0 {
+					c.ok(rule, fnName(fn)+": provider imports are marked where the provider expression is printed (call template, C02.2)", mterm)
+					continue
+				}
+				if len(emits) == 0 {
+					c.fail(rule, construct, L.pos(anchor.Pos()), "imports of "+what+" are marked used, but the function prints something else: the import block can name a package the output never mentions", "marked from "+mterm, "expected an emission containing one of "+strings.Join(want, " / "))
+					continue
+				}
+				// path condition: from the marking, the next iteration / exit is not reachable without an emission
+				emitBlocks := map[*ssa.BasicBlock]bool{}
+				for _, e := range emits {
+					emitBlocks[e.Block()] = true
+				}
+				var outer *ssa.BasicBlock // header of the loop that encloses the marking
+				inner := anchor.Block()
+				if nx, isNext := anchor.(*ssa.Next); isNext {
+					inner = nx.Iter.(*ssa.Range).Block()
+				}
+				for d := inner.Idom(); d != nil; d = d.Idom() {
+					if reachable(inner, d) {
+						outer = d
+						break
+					}
+				}
+				escapes := ""
+				seen := map[*ssa.BasicBlock]bool{}
+				stack := []*ssa.BasicBlock{anchor.Block()}
+				for len(stack) > 0 && escapes == "" {
+					x := stack[len(stack)-1]
+					stack = stack[:len(stack)-1]
+					if seen[x] {
+						continue
+					}
+					seen[x] = true
+					if emitBlocks[x] {
+						continue
+					}
+					if x == outer {
+						escapes = fmt.Sprintf("the next iteration (block %d) is reached without the emission", x.Index)
+						break
+					}
+					if len(x.Succs) == 0 {
+						if r, ok := x.Instrs[len(x.Instrs)-1].(*ssa.Return); ok && len(r.Results) > 0 && isErrorType(r.Results[len(r.Results)-1].Type()) && !returnsNilError(r) {
+							continue // failing exit: nothing is written
+						}
+						if outer == nil {
+							escapes = fmt.Sprintf("the function returns (block %d) without the emission", x.Index)
+						}
+						continue
+					}
+					stack = append(stack, x.Succs...)
+				}
+				c.check(escapes == "", rule, construct+":always-emitted", L.pos(anchor.Pos()),
+					"what is marked as used is printed on every path that goes on ("+what+")", escapes)
+			}
+		}
+	}
+	c.floor(rule, "loops that mark a set of imports as used", n, 4)
+	// premise of the argument pair: Param and ASTTypeExpr of an injector argument are built from one and the same type
+	fns := pkgFuncs(L, genPkg)
+	type pair struct {
+		typ, expr string
+		pos       token.Pos
+	}
+	byAlloc := func(typeField, exprField string) map[ssa.Value]*pair {
+		out := map[ssa.Value]*pair{}
+		s := newSym(L, map[string]bool{})
+		s.maxD = 0
+		for _, st := range storesToField(fns, typeField) {
+			if fa, ok := st.Addr.(*ssa.FieldAddr); ok {
+				p := out[fa.X]
+				if p == nil {
+					p = &pair{}
+					out[fa.X] = p
+				}
+				p.typ, p.pos = strings.Join(s.eval(st.Val), "|"), st.Pos()
+			}
+		}
+		for _, st := range storesToField(fns, exprField) {
+			if fa, ok := st.Addr.(*ssa.FieldAddr); ok {
+				p := out[fa.X]
+				if p == nil {
+					p = &pair{}
+					out[fa.X] = p
+				}
+				p.expr, p.pos = strings.Join(s.eval(st.Val), "|"), st.Pos()
+			}
+		}
+		return out
+	}
+	nP := 0
+	for _, p := range byAlloc("internal/kessoku.argument.Type", "internal/kessoku.argument.ASTTypeExpr") {
+		nP++
+		ok := p.typ != "" && strings.Contains(p.expr, "createASTTypeExpr#0(") && strings.Contains(p.expr, ", "+p.typ+", ")
+		c.check(ok, rule, "argument:type-and-expression-from-one-type", L.pos(p.pos), "an argument node's printed type expression is rendered from the node's own type", "Type="+p.typ+" ASTTypeExpr="+p.expr)
+	}
+	for _, p := range byAlloc("internal/kessoku.InjectorArgument.Param", "internal/kessoku.InjectorArgument.ASTTypeExpr") {
+		nP++
+		// Param = NewInjectorParamWithImports([]{X.Type}), ASTTypeExpr = X.ASTTypeExpr for the same argument node X; the context
+		// argument is the one hand-built pair (context.Context under the context import, which is marked separately)
+		ok := false
+		why := "Param=" + p.typ + " ASTTypeExpr=" + p.expr
+		if i := strings.Index(p.typ, "field:internal/kessoku.argument.Type("); i >= 0 && strings.HasPrefix(p.expr, "field:internal/kessoku.argument.ASTTypeExpr(") {
+			x := elideAfter(p.typ[i+len("field:internal/kessoku.argument.Type("):])
+			ok = strings.HasPrefix(p.expr, "field:internal/kessoku.argument.ASTTypeExpr("+x+")")
+		}
+		if strings.Contains(p.expr, "go/ast.SelectorExpr") && strings.Contains(p.typ, `go/types.NewPackage("context", "context"), "Context"`) {
+			ok = true
+			why = "hand-built context argument: " + why
+		}
+		c.check(ok, rule, "InjectorArgument:param-and-expression-of-one-argument", L.pos(p.pos), "an injector argument's parameter (whose imports are marked used) and its printed type expression belong to the same argument node", why)
+	}
+	c.floor(rule, "argument / InjectorArgument constructions", nP, 2)
+}
+
+// elideAfter returns the balanced prefix of t up to (not including) the parenthesis that closes the enclosing call.
+func elideAfter(t string) string {
+	depth := 0
+	for i := 0; i < len(t); i++ {
+		switch t[i] {
+		case '(':
+			depth++
+		case ')':
+			if depth == 0 {
+				return t[:i]
+			}
+			depth--
+		}
+	}
+	return t
+}
+
+// reachableWithin: to is reachable from from without passing stop (from itself may be stop's neighbour).
+func reachableWithin(from, to, stop *ssa.BasicBlock) bool {
+	seen := map[*ssa.BasicBlock]bool{}
+	stack := []*ssa.BasicBlock{from}
+	for len(stack) > 0 {
+		x := stack[len(stack)-1]
+		stack = stack[:len(stack)-1]
+		if seen[x] {
+			continue
+		}
+		seen[x] = true
+		if x == to {
+			return true
+		}
+		if x == stop {
+			continue
+		}
+		stack = append(stack, x.Succs...)
+	}
+	return false
+}
